@@ -59,9 +59,10 @@ def stepC (bl : List (Sess × Cls)) : Sess → Cls → Option Cls
   | .call n l b, c =>
     if isSkip b then some c
     else if c = .A then
-      match lookupBlock bl (.call n l b) with
-      | some o => some o
-      | none => (stepC bl b .A).map (fun _ => Cls.E)
+      (if chk [] (fun _ => false) b then some .A   -- a function that returns no error value
+       else match lookupBlock bl (.call n l b) with
+        | some o => some o
+        | none => (stepC bl b .A).map (fun _ => Cls.E))
     else none
   | .defer cl b, c => if isOpCall cl then stepC bl b c else none
   | .scope _ b, c => stepC bl b c
@@ -390,6 +391,11 @@ theorem stepC_sound (bl : List (Sess × Cls))
         | _ => simp [isSkip] at hsk
       · split at h
         · rename_i hc; subst hc
+          split at h
+          · rename_i hvoid
+            simp only [Option.some.injEq] at h; subst h
+            have hb : PresV bad b := chk_sound bad [] (fun _ => false) (by simp) (by simp) b hvoid
+            exact (presV_call bad hb env s hg hm).toJ
           split at h
           · rename_i o hlook
             simp only [Option.some.injEq] at h; subst h
